@@ -174,6 +174,13 @@ def _p(e, cx):
         return set(EMPTY)
     # generic expression: children in evaluation order, then the node itself
     cur = EMPTY
+    if k in ("Call", "MethodCall") and isinstance(e.get("inlined"), dict):
+        # a helper extracted from this function (vlib/canon.py): arguments, then the helper's body; its `return` ends the helper
+        for c in _children_in_order(e):
+            if isinstance(c, dict) and "k" in c:
+                cur = _seq(cur, _p(c, cx))
+        inner = {(ev, "fall" if st == "ret" else st) for ev, st in _p(e["inlined"]["body"], cx)}
+        return _own(e, _seq(cur, inner), cx)
     if k in ("Call", "MethodCall") and cx.inline_calls is not None and cx.depth < 3:
         body_ = cx.inline_calls(e)
         if body_ is not None:
@@ -370,3 +377,52 @@ def variant_case(F, fn, subject_hids, adt, variant):
         return val(n["cond"])
 
     return decide_if, select_arms, val
+
+
+def int_eq_case(subject_hids, value, holds):
+    """decide_if callback that prunes path enumeration under the assumption that the integer locals in `subject_hids`
+    are equal to `value` (holds=True) or different from it (holds=False).  Understood: `x == L`, `x != L`, `L == x`, `!c`,
+    `a && b`, `a || b` (three-valued)."""
+    from .facts import peel, lit_int
+
+    def atom(c):
+        a, b = peel(c["a"]), peel(c["b"])
+        for x, y in ((a, b), (b, a)):
+            if x.get("k") == "Path" and x.get("res", {}).get("hid") in subject_hids and y.get("k") == "Lit":
+                v = lit_int(y.get("lit"))
+                if v is None:
+                    return None
+                if v == value:
+                    return holds
+                return False if holds else None      # x == value ⇒ x != other literal; x != value says nothing about others
+        return None
+
+    def val(c):
+        c = peel(c)
+        k = c.get("k")
+        if k == "Unary" and c.get("op") == "!":
+            v = val(c["a"])
+            return None if v is None else (not v)
+        if k == "Binary" and c.get("op") == "&&":
+            a, b = val(c["a"]), val(c["b"])
+            if a is False or b is False:
+                return False
+            return True if (a is True and b is True) else None
+        if k == "Binary" and c.get("op") == "||":
+            a, b = val(c["a"]), val(c["b"])
+            if a is True or b is True:
+                return True
+            return False if (a is False and b is False) else None
+        if k == "Binary" and c.get("op") == "==":
+            return atom(c)
+        if k == "Binary" and c.get("op") == "!=":
+            v = atom(c)
+            return None if v is None else (not v)
+        if k == "Block" and not c.get("stmts") and c.get("expr") is not None:
+            return val(c["expr"])
+        return None
+
+    def decide_if(n):
+        return val(n["cond"])
+    return decide_if, val
+
